@@ -1,13 +1,20 @@
 package main
 
+// C03 — equality is a coherent equivalence that agrees with hashing and sets.
+// The runner has two halves: the value half (c03val.go: Equals / RawEquals /
+// hash bytes / SetVal / ValueSet of the real go-cty on pools of values with many
+// equalities) and the generic half (c03set.go: cty/set over int rules).
+
 import (
+	"math/big"
+
 	"github.com/zclconf/go-cty/cty"
 )
 
 func init() {
 	register("C03", "pairs/triples of values of every type incl. numbers equal at different precisions, 10th-digit boundary pairs, NFC-equal strings, nulls, nested structures; "+
-		"set histories (all of length<=4 over 3 values, random longer) and permutations of constructor inputs. non-trivial = pair is Equals-true or hash-equal, or history has >=3 ops; "+
-		"distinct = distinct canonical wire strings", runC03)
+		"set histories (all of length<=4 over 3 values, random longer) and permutations of constructor inputs. non-trivial = pair is Equals-true or hash-equal, triple has an equal pair, "+
+		"SetVal has >=2 inputs, history has >=3 calls; distinct = distinct canonical wire strings", runC03)
 }
 
 func c03NumPair(ctx *Ctx, a, b cty.Value) {
@@ -29,31 +36,96 @@ func opOut(f func() cty.Value) (string, cty.Value, bool) {
 	return "ok " + encVal(v), v, false
 }
 
-func c03ValPair(ctx *Ctx, a, b cty.Value) {
-	wa, wb := encVal(a), encVal(b)
-	out, _, _ := opOut(func() cty.Value { return a.Equals(b) })
-	ctx.Add("op.equals", out, wa, wb)
+// c03DoPool: every predicate and every correspondence family on one pool.
+// sets: 0 = none, 1 = sampled SetVal inputs, 2 = every input multiset of size <= 2 too.
+func c03DoPool(ctx *Ctx, p c03Pool, sets int) {
+	m := c03Matrix(p)
+	c03Judge(ctx, m)
+	c03PoolCorr(ctx, m)
+	if sets > 0 {
+		c03SetCases(ctx, m, sets == 2, ctx.N(1, 2))
+		c03VSCases(ctx, m, ctx.N(2, 4))
+	}
 }
 
 func runC03(ctx *Ctx) {
+	// 1. plain number pairs of every magnitude / precision class (text functions, rawNumberEqual)
 	o := ValOpts{}
-	n := ctx.N(3000, 100000)
-	for i := 0; i < n; i++ {
+	for i := 0; i < ctx.N(1000, 20000); i++ {
 		a, b := genNumber(ctx.R, o), genNumber(ctx.R, o)
 		c03NumPair(ctx, a, b)
 		ctx.Eval("numpair "+numWire(a)+" "+numWire(b), a.Equals(b).True())
 	}
-	vo := ValOpts{Unknown: true, Null: true, Marks: true, DynVal: true, Small: true}
-	for i := 0; i < ctx.N(6000, 200000); i++ {
-		t := genTy(ctx.R, 2, TyOpts{Dyn: true})
-		a := genVal(ctx.R, t, 2, vo)
-		var b cty.Value
-		if ctx.R.Intn(4) == 0 {
-			b = genVal(ctx.R, genTy(ctx.R, 2, TyOpts{Dyn: true}), 2, vo)
-		} else {
-			b = genVal(ctx.R, t, 2, vo)
+	// 2. fixed pools: the three recorded witnesses, strings, bools
+	w4 := []cty.Value{cty.NumberFloatVal(3.9477794105), cty.MustParseNumberVal("3.9477794105"), cty.NumberFloatVal(0.1), cty.MustParseNumberVal("0.1"),
+		cty.NumberFloatVal(0.1).Multiply(c03One), cty.NumberIntVal(17179869181), cty.NumberIntVal(17179869182),
+		cty.NumberVal(new(big.Float).Neg(new(big.Float).SetInt64(0))), cty.Zero, cty.NullVal(cty.Number)}
+	c03DoPool(ctx, c03Pool{"fixed/witnesses", w4}, 2)
+	for _, k := range c03Wrappers {
+		full := 1
+		if k == "tuple1" || k == "set1" || ctx.Thorough {
+			full = 2
 		}
-		c03ValPair(ctx, a, b)
-		ctx.Eval("valpair "+encVal(a)+" "+encVal(b), true)
+		c03DoPool(ctx, c03WrapPool("fixed/witnesses", k, w4[:7]), full)
 	}
+	var strs []cty.Value
+	for _, s := range c03Strs {
+		strs = append(strs, cty.StringVal(s))
+	}
+	strs = c03DedupVals(strs, 9)
+	c03DoPool(ctx, c03Pool{"fixed/strings", append(append([]cty.Value(nil), strs...), cty.NullVal(cty.String))}, 2)
+	for _, k := range []string{"tuple1", "set2", "map1", "setlist"} {
+		c03DoPool(ctx, c03WrapPool("fixed/strings", k, strs), 1)
+	}
+	c03DoPool(ctx, c03Pool{"fixed/bools", []cty.Value{cty.True, cty.False, cty.NullVal(cty.Bool)}}, 2)
+	// 2b. the model's copy of strconv's printable-rune table (hash bytes of strings are %q-quoted):
+	// every edge of every range the model claims to know, and random runes inside them
+	edges := []rune{0x1f, 0x20, 0x22, 0x5c, 0x7e, 0x7f, 0x80, 0xa0, 0xa1, 0xac, 0xad, 0xae, 0xff, 0x100, 0x377, 0x10ff, 0x1100, 0x11ff,
+		0x2000, 0x200f, 0x2010, 0x2027, 0x2028, 0x202f, 0x2100, 0x213f, 0xabff, 0xac00, 0xd7a3, 0xfb00, 0xfb06, 0xfffd, 0x1f1e6, 0x1f1ff, 0x1f300, 0x1f64f, 7, 8, 9, 10, 11, 12, 13, 0}
+	for i := 0; i < ctx.N(150, 3000); i++ {
+		lo := []rune{0x20, 0xa1, 0x100, 0x1100, 0x2000, 0x2100, 0xac00, 0x1f300}[ctx.R.Intn(8)]
+		edges = append(edges, lo+rune(ctx.R.Intn(map[rune]int{0x20: 0x60, 0xa1: 0x5f, 0x100: 0x278, 0x1100: 0x100, 0x2000: 0x30, 0x2100: 0x40, 0xac00: 0x2ba4, 0x1f300: 0x350}[lo])))
+	}
+	for _, r := range edges {
+		v := cty.StringVal("a" + string(r))
+		w := encVal(v)
+		if b, pn := cty.VerifHashBytes(v); !pn {
+			ctx.Add("hash.bytes", "ok "+encStr(string(b)), w)
+			ctx.Tag("rune-table")
+		}
+	}
+	// 3. number pools (one number at several precisions + neighbours) and wrapped pools
+	for k := 0; k < ctx.N(24, 150); k++ {
+		base := c03NumPool(ctx)
+		if len(base) < 2 {
+			continue
+		}
+		c03DoPool(ctx, c03Pool{"num", append(append([]cty.Value(nil), base...), cty.NullVal(cty.Number))}, 1)
+		for j := 0; j < ctx.N(1, 2); j++ {
+			kind := c03Wrappers[ctx.R.Intn(len(c03Wrappers))]
+			var p c03Pool
+			if pn, _ := try(func() { p = c03WrapPool("num", kind, base) }); !pn {
+				c03DoPool(ctx, p, 1)
+			}
+		}
+	}
+	// 4. generated values of every type with their re-precisioned twins
+	for k := 0; k < ctx.N(60, 400); k++ {
+		if p, ok := c03GenPool(ctx, true); ok {
+			c03DoPool(ctx, p, k%2)
+		}
+		if p, ok := c03GenPool(ctx, false); ok {
+			sets := 0
+			if k%4 == 0 {
+				sets = 1
+			}
+			c03DoPool(ctx, p, sets)
+		}
+	}
+	// 5. pairs of any two types, unknowns, marks, DynamicVal: symmetry
+	for i := 0; i < ctx.N(2000, 40000); i++ {
+		c03WildPair(ctx)
+	}
+	// 6. the generic cty/set half
+	runC03SetBudget(ctx, ctx.Thorough)
 }
